@@ -455,6 +455,17 @@ func (c *cluster) monitor() []finding {
 				}
 			}
 		}
+		// calls issued right after the scenario waited for quiescence (note "quiet-before-verify")
+		quietBefore := map[uint64]bool{}
+		var lastQuiet uint64
+		for _, e := range evs {
+			if e.kind == "note" && e.s == "quiet-before-verify" {
+				lastQuiet = e.seq
+			}
+			if e.kind == "call" && e.s == "verify" && lastQuiet != 0 && e.seq <= lastQuiet+2 {
+				quietBefore[e.seq] = true
+			}
+		}
 		for _, r := range evs {
 			if r.kind != "ret" || r.s != "verify" || r.b != 0 {
 				continue
@@ -472,7 +483,11 @@ func (c *cluster) monitor() []finding {
 				// counted by the leader = handed to it between the call and its return
 				// (an answer handed over just before the call may still be on its way through the
 				// replication goroutine when the call registers: 60 events of slack, voters only)
-				if !answered || !handed || sender[ss] != r.node || ds > r.seq || ds+60 < call.seq {
+				slack := uint64(60)
+				if quietBefore[call.seq] {
+					slack = 0 // the scenario waited for quiescence right before the call: nothing is on its way
+				}
+				if !answered || !handed || sender[ss] != r.node || ds > r.seq || ds+slack < call.seq {
 					continue
 				}
 				if ds < call.seq && !vs[si.to] {
